@@ -45,6 +45,25 @@ def seeded_section():
     return head + "\n".join(rows)
 
 
+def findings_section():
+    rows = []
+    seen = set()
+    def key(e):
+        m = re.match(r"F(\d+)(\w*)", e["id"])
+        return (int(m.group(1)) if m else 999, e["id"])
+    ents = [json.loads(l) for l in open(os.path.join(ROOT, "KNOWN_FINDINGS.jsonl")) if l.strip()]
+    for e in sorted(ents, key=key):
+        what = re.sub(r"\s+", " ", e.get("what") or "")[:300]
+        tag = (e["id"], e["property"], e.get("status"), what)
+        if tag in seen:
+            continue
+        seen.add(tag)
+        rows.append("| %s | %s | %s | %s | %s |" % (e["id"], e["property"], e.get("status"), e.get("commit") or "—",
+                                                  what.replace("|", "/")))
+    head = "| id | property | status | repair commit in /repo | what |\n|---|---|---|---|---|\n"
+    return head + "\n".join(rows)
+
+
 def splice(text, key, body):
     a, b = "<!-- BEGIN GENERATED: %s -->" % key, "<!-- END GENERATED: %s -->" % key
     if a not in text:
@@ -57,5 +76,6 @@ p = os.path.join(ROOT, "DESIGN.md")
 t = open(p).read()
 t = splice(t, "theorems", theorems_section())
 t = splice(t, "seeded", seeded_section())
+t = splice(t, "findings", findings_section())
 open(p, "w").write(t)
 print("DESIGN.md regenerated parts updated")
